@@ -3,13 +3,13 @@ from specs import c18, gc, snapbody, snapshot
 
 LEVEL = 'proof'
 UNITS = [gc.delete_unit('C02'), gc.clean_unit('C02'), snapbody.download_snapshot_unit('C02'),
-         snapshot.worker_unit('C02'), snapshot.run_unit('C02')] + c18.units('C02')[:1]
-BOUNDED = [{'name': 'C02.history', 'script': 'bounded/hist.py', 'timeout': 1200, 'args': {'prop': 'C02'}, 'bound': 'random histories of snapshot/delete/clean by owner, shared-key and independent-key users (and one unencrypted user): <= 10 operations, <= 4 paths per snapshot from 6 overlapping contents, chunks 8..64, 2 (thorough: 40) seeded histories per mode; every remaining snapshot is restored by its owner after each destructive step; the commands use a snapshot cache per user / shared by all users / none (by history), the oracle reads the backend only'}]
+         snapshot.worker_unit('C02'), snapshot.run_unit('C02')] + c18.units('C02')[:1] + snapbody.load_units('C02')
+BOUNDED = [{'name': 'C02.history', 'script': 'bounded/hist.py', 'timeout': 1200, 'args': {'prop': 'C02'}, 'bound': 'random histories of snapshot/delete/clean by owner, shared-key and independent-key users (and one unencrypted user): <= 10 operations, <= 4 paths per snapshot from 6 overlapping contents, chunks 8..64, 5 (thorough: 40) seeded histories per mode; every remaining snapshot is restored by its owner after each destructive step; the commands use a snapshot cache per user / shared by all users / none (by history), the oracle reads the backend only'}]
 TRUSTED = [
     'vf symbolic executor (/verif/vf): encoding of the Python subset (DESIGN 2.2)',
     'z3 5.1 (API + z3-new CLI), cvc5 1.0.3 (strings)',
 ]
-ASSUMPTIONS = ['backend interface (upload = map update, delete = idempotent removal, list_files(prefix) = live names with the prefix, each once)', '_load_snapshots yields each listed, own-family snapshot once (as_completed/run_in_executor deliver each item once)', 'loaded snapshots have pairwise distinct names (premise: the snapshot area contains only objects written by replicat; A-collision)', 'loc(d) = contract of _chunk_digest_to_location (proved in C08/C14 units)', 'destructive commands are sequential (premise of the property); restore of the remaining snapshots is C01 on top of the reference invariant']
+ASSUMPTIONS = ['backend interface (upload = map update, delete = idempotent removal, list_files(prefix) = live names with the prefix, each once)', 'asyncio.Queue / Future.add_done_callback / run_in_executor deliver each finished job once (library semantics); on top of them _load_snapshots starting one job per listed path and yielding every non-None result with its path, and utils.as_completed, are proved (load_snapshots_outer, as_completed units)', 'loaded snapshots have pairwise distinct names (premise: the snapshot area contains only objects written by replicat; A-collision)', 'loc(d) = contract of _chunk_digest_to_location (proved in C08/C14 units)', 'destructive commands are sequential (premise of the property); restore of the remaining snapshots is C01 on top of the reference invariant']
 MANIFEST = {
     'text': 'Deductive proof, for all sets of loaded snapshots and all chunk tables, that delete_snapshots and clean never hand a location to the backend delete that a remaining (not named / any) loaded snapshot references, that they refuse before any deletion when a requested name is missing or foreign, and that foreign-family snapshots are never loaded.',
     'note': 'Trusted: vf engine, SMT solvers, the assumed backend/asyncio contracts listed in evidence.assumptions. Histories are handled by the inductive reference invariant: each command preserves it (per-command contracts), composition over histories is the induction stated in DESIGN 6/C02.',
